@@ -590,6 +590,59 @@ def fitsUdt : List (String × CqlTy) → List (String × RVal) → Bool
     | some v => fits t v && fitsUdt rest (removeName n m)
 end
 
+mutual
+/-- Every sequence that meets a `vector<_, dim>` column on the way through `x` has exactly `dim` elements
+(the one condition of `fits` that depends on the value of a typed carrier, not on its type). -/
+def dimsOk : CqlTy → RVal → Bool
+  | t, x =>
+    match (strip x).2 with
+    | .vec vs =>
+      match t with
+      | .list elt => allB (fun v => dimsOk elt v) vs
+      | .set elt => allB (fun v => dimsOk elt v) vs
+      | .vector elt dim => decide (vs.length = dim) && allB (fun v => dimsOk elt v) vs
+      | _ => true
+    | .set vs =>
+      match t with
+      | .list elt => allB (fun v => dimsOk elt v) vs
+      | .set elt => allB (fun v => dimsOk elt v) vs
+      | _ => true
+    | .map kvs =>
+      match t with
+      | .map kt vt => allB (fun kv => dimsOk kt kv.1 && dimsOk vt kv.2) kvs
+      | _ => true
+    | .tuple fs =>
+      match t with
+      | .tuple ts => dimsTuple ts fs
+      | _ => true
+    | _ => true
+def dimsTuple : List CqlTy → List RVal → Bool
+  | t :: ts, f :: fs => dimsOk t f && dimsTuple ts fs
+  | _, _ => true
+end
+
+mutual
+/-- The carrier type contains no `CqlValue` (whose acceptance is decided by the value, not by the type). -/
+def noDyn : Carrier → Bool
+  | .dyn => false
+  | .opt c => noDyn c
+  | .maybeUnset c => noDyn c
+  | .maybeEmpty c => noDyn c
+  | .vec c => noDyn c
+  | .hashSet c => noDyn c
+  | .btreeSet c => noDyn c
+  | .hashMap k v => noDyn k && noDyn v
+  | .btreeMap k v => noDyn k && noDyn v
+  | .tuple cs => noDynList cs
+  | .listIter c => noDyn c
+  | .vecIter c => noDyn c
+  | .mapIter k v => noDyn k && noDyn v
+  | _ => true
+def noDynList : List Carrier → Bool
+  | [] => true
+  | c :: cs => noDyn c && noDynList cs
+end
+
 /-! ### typing of values by carriers -/
 
 /-- `x` is the embedding of a `CqlValue` (see `RVal`): leaves, `Empty`, sequences / maps of such, tuples and
